@@ -86,7 +86,9 @@ func propC23(c *Check) {
 			return ok && Param("txs")(st.Addr) && Call("builtin:append", Path(Param("txs"), ""), Has(read))(st.Val)
 		}, "txs = append(txs, ver)", "a queued transaction whose body exists is returned, not silently dropped with its queue records")
 		// processed keys: the visited key and the order key
-		c.ErrorsPropagated(f, txnWriteCalls, "a failed delete aborts the retrieval update")
+		c.ErrorsPropagated(f, func(callee string, ci ssa.CallInstruction) bool {
+			return txnWriteCalls(callee, ci) || callee == "(*storage.BadgerStore).cacheReadTransaction"
+		}, "a failed delete or a failed body read aborts the retrieval update (nothing is dequeued)")
 	}
 	if f := c.F("(*storage.BadgerStore).CacheRemoveTransactions$1"); f != nil {
 		all := []string{"delete:cachePrefixTransactionCache", "delete:cachePrefixTransactionOrder"}
@@ -149,6 +151,16 @@ func propC23(c *Check) {
 			}
 		}
 		c.Require(len(q) >= 1 && len(fin) == 1 && bad == "", "postgate", shortName(f)+"|success => queued", "every success return of QueueTransaction passes CacheQueueTransaction unless the transaction is already finalized", "a success return at "+bad+" is reachable without queueing", c.W.Pos(f.Pos()))
+	}
+	// (5a) a transaction that is not yet cached is queued only after it validated
+	if f := c.F("(*kernel.Node).QueueTransaction"); f != nil {
+		var fresh []ssa.Instruction
+		for _, ci := range findCalls(f, qT) {
+			if !dominatedByBranch(f, ci.Block(), BinEither(token.NEQ, Extract(0, Call("iface:storage.Store.CacheGetTransaction")), ConstNil), true) {
+				fresh = append(fresh, ci)
+			}
+		}
+		c.MustPass(f, Gate{Name: "tx.Validate(store, now, false) != nil => reject", RejectOnTrue: true, Cond: BinEither(token.NEQ, Call("(*common.VersionedTransaction).Validate", Param("tx")), ConstNil)}, fresh, "queueing a transaction that was not cached before")
 	}
 	// (5b) every dequeued transaction is looked at: the loop over the retrieved list has no early
 	// exit (the queue records of the whole list are already deleted when the loop starts)
